@@ -103,8 +103,8 @@ def definitions(repo, res):
                             f'{meaning} (`{want}`) are missing, so they enter the centroid and second moments', {}))
     # flux-like definitions
     f = repo.method(SC, 'segment_flux')
-    expect_stmt(res, 'SPEC', f, 'source_sum = ' + nf_text('np.array([np.sum(arr) for arr in self._data_values])'), 'segment_flux = sum of the unmasked segment pixels')
-    expect_stmt(res, 'SPEC', f, 'source_sum Sub= ' + nf_text('self.area.value * localbkg'), 'local background times area removed')
+    expect_stmt(res, 'SPEC', f, 'source_sum = ' + nf_text('np.array([np.sum(arr) for arr in self._data_values]) - self.area.value * localbkg'),
+                'segment_flux = sum of the unmasked segment pixels minus the local background times the unmasked area')
     f = repo.method(SC, 'segment_fluxerr')
     expect_stmt(res, 'SPEC', f, 'err = ' + nf_text('np.sqrt(np.array([np.sum(arr ** 2) for arr in self._error_values]))'), 'segment_fluxerr = quadrature sum of the errors')
     f = repo.method(SC, 'background_sum')
@@ -120,7 +120,8 @@ def definitions(repo, res):
                 'segment_area counts the pixels carrying this label (not other labels in the box)')
     for nm, fn in (('min_value', 'min'), ('max_value', 'max')):
         f = repo.method(SC, nm)
-        expect_stmt(res, 'SPEC', f, 'values = ' + nf_text(f'np.array([np.{fn}(array) for array in self._data_values])'), f'{nm} over the unmasked segment pixels')
+        expect_stmt(res, 'SPEC', f, 'values = ' + nf_text(f'np.array([np.{fn}(array) for array in self._data_values]) - self._local_background'),
+                    f'{nm} over the unmasked segment pixels, local background removed')
     for nm in ('minval_index', 'maxval_index'):
         f = repo.method(SC, nm)
         expect_stmt(res, 'T-FRAME', f, 'out = ' + nf_text('[(idx[0] + slc[0].start, idx[1] + slc[1].start) '
